@@ -19,6 +19,9 @@
 //        (a layer in handle mode refuses the unknown handle; in no-open / no-opendir mode it ignores the handle and
 //         works from the inode)
 //   WK = WRITE(1 byte, WRITE_KILL_PRIV) on a setuid file cleared the setuid bit: 1 | 0 | na
+//   WA = WRITE(1 byte at offset 0) whose request flags word carries O_APPEND, on a handle opened without it:
+//        0 = the byte was appended (the descriptor got O_APPEND), 1 = it overwrote offset 0 (O_APPEND stripped: the
+//        writeback rewrite, where the client positions appends itself), na = the write failed
 // layer / switch bits:
 //   vfs : b0 no_open  b1 no_opendir  b2 no_writeback  b3 killpriv_v2     (VfsOptions; out_opts = "-" keeps the default)
 //         backend: PassthroughFs (do_import = false, cache=always, dax_file_size = 0) mounted at "/"
@@ -85,6 +88,7 @@ fn prep_dir(d: &Path) {
     std::fs::write(d.join("f"), b"abc").unwrap();
     std::fs::write(d.join("s"), b"abcdef").unwrap();
     std::fs::set_permissions(d.join("s"), std::fs::Permissions::from_mode(0o4755)).unwrap();
+    std::fs::write(d.join("a"), b"abcdef").unwrap();
     for n in ["s2", "s3", "s4"] {
         std::fs::write(d.join(n), b"abcdef").unwrap();
         std::fs::set_permissions(d.join(n), std::fs::Permissions::from_mode(0o4755)).unwrap();
@@ -199,7 +203,35 @@ where
         }
         Err(_) => "na".to_string(),
     };
-    format!("FL={} GH={} FH={} DH={} WK={}", fl, gh, fh, dh, wk)
+    // WRITE whose flags word carries O_APPEND (check_fd_flags re-applies the request's flags to the descriptor)
+    let name_a = CString::new("a").unwrap();
+    let wa = match fs.lookup(&ctx, root, &name_a) {
+        Ok(e) => {
+            let o = fs.open(&ctx, e.inode, libc::O_WRONLY as u32, 0);
+            let h = if let Ok((Some(h), _, _)) = &o { *h } else { 0 };
+            let src = scratch.join("wsrc");
+            std::fs::write(&src, b"Y").unwrap();
+            let mut rd = std::fs::File::open(&src).unwrap();
+            let w = fs.write(&ctx, e.inode, h, &mut rd, 1, 0, None, false, (libc::O_WRONLY | libc::O_APPEND) as u32, 0);
+            let mut v = "na".to_string();
+            if let Ok(1) = w {
+                for sub in ["", "upper", "lower"] {
+                    if let Ok(b) = std::fs::read(scratch.join(sub).join("a")) {
+                        v = if b == b"abcdefY" { "0".to_string() } else if b == b"Ybcdef" { "1".to_string() } else { format!("odd:{}", b.len()) };
+                        break;
+                    }
+                }
+            }
+            if let Ok((Some(h), _, _)) = o {
+                let _ = fs.release(&ctx, e.inode, 0, h, false, false, None);
+            }
+            fs.forget(&ctx, e.inode, 1);
+            let _ = std::fs::remove_file(&src);
+            v
+        }
+        Err(_) => "na".to_string(),
+    };
+    format!("FL={} GH={} FH={} DH={} WK={} WA={}", fl, gh, fh, dh, wk, wa)
 }
 fn fmt_unit(r: &io::Result<()>) -> String {
     match r {
@@ -384,6 +416,9 @@ fn reset_files(scratch: &Path, layer: &str) {
     // restore the setuid file for the next round of probes
     let dirs: Vec<PathBuf> = if layer == "ovl" { vec![scratch.join("upper"), scratch.join("lower")] } else { vec![scratch.to_path_buf()] };
     for d in dirs {
+        if d.join("a").exists() {
+            std::fs::write(d.join("a"), b"abcdef").unwrap();
+        }
         for n in ["s", "s2", "s3", "s4"] {
             let p = d.join(n);
             if p.exists() {
